@@ -8,8 +8,9 @@ CPEND = {"begin": "pre:mark", "enq_lock": "pre:lock", "enq_after": "post:unlock"
          "stop_after": "post:unlock", "stop_join": "pre:join", "done": "done",
          "start": "pre:start", "loop_lock": "pre:lock", "waiting": "pre:cond", "job_run": "post:unlock",
          "exit_after": "post:unlock", "aw0": "pre:mark", "awb": "pre:mark", "rv_mark": "pre:mark", "rs_enq_lock": "pre:lock",
-         "rs_enq_after": "post:unlock"}
-JST = {"new": "pending", "queued": "pending", "dropped": "pending", "waiting": "pending", "running": "running", "ran": "ran", "cancelled": "cancelled"}
+         "rs_enq_after": "post:unlock", "nx_enq_lock": "pre:lock", "nx_enq_after": "post:unlock",
+         "dbegin": "pre:mark"}
+JST = {"unborn": "pending", "new": "pending", "queued": "pending", "dropped": "pending", "waiting": "pending", "running": "running", "ran": "ran", "cancelled": "cancelled"}
 
 
 def as_map(v):
@@ -18,30 +19,70 @@ def as_map(v):
     return {str(k): x for k, x in v.items()}
 
 
-def proj(st):
-    pc = st["pc"]
-    enabled = []
-    for t, p in pc.items():
-        if p == "done":
-            continue
-        if p == "waiting" and t not in st["notified"]:
-            continue
-        if p == "stop_join" and st["sth"][t][0] not in st["wdone"]:
-            continue
-        if p == "start" and pc["c"] == "begin":
-            continue
-        enabled.append(t)
-    jst = as_map(st["jst"])
-    ranby = as_map(st["ranby"])
-    return {
-        "pend": {t: CPEND[p] for t, p in pc.items()},
-        "enabled": sorted(enabled),
-        "wdone": sorted(st["wdone"]),
-        "exit": st["exit"],
-        "qlen": len(st["q"]),
-        # a dequeued job whose body has not started yet is not observable as running
-        "jobs": {j: {"st": "pending" if (s == "running" and ranby[j] == "none") else JST[s], "by": ranby[j]} for j, s in jst.items()},
-    }
+# nested submissions (ThreadPool.tla: HasChild / ChildKind / Kind / HasFuture / FutState)
+CHILD = {"asn": "co", "acu": "co", "con": "co", "as2": "con", "asr": "fna", "fnn": "fn", "dtn": "det"}
+FUT_FN = ("fn", "asy", "fnn")
+FUT_THROW = ("fnx", "asx")
+FUT_CORO = ("asn", "as2", "acu", "asr")
+
+
+def kind_of(script, j):
+    n = len(script)
+    k = script[(j - 1) % n]
+    for _ in range((j - 1) // n):
+        k = CHILD[k]
+    return k
+
+
+def make_proj(script):
+    n = len(script)
+
+    def chain_over(jst, j):
+        k = kind_of(script, j)
+        if k not in CHILD:
+            return jst[str(j)] == "ran"
+        if k == "asr":
+            return jst[str(j)] == "ran" and jst[str(j + n)] in ("ran", "cancelled")
+        return jst[str(j + n)] == "cancelled" or chain_over(jst, j + n)
+
+    def fut(jst, j):
+        k = kind_of(script, j)
+        if k not in FUT_FN and k not in FUT_CORO and k not in FUT_THROW:
+            return "none"
+        if jst[str(j)] == "cancelled":
+            return "broken"
+        if k in FUT_THROW:
+            return "exception" if jst[str(j)] == "ran" else "pending"
+        if k in FUT_FN:
+            return "value" if jst[str(j)] == "ran" else "pending"
+        return "value" if chain_over(jst, j) else "pending"
+
+    def proj(st):
+        pc = st["pc"]
+        enabled = []
+        for t, p in pc.items():
+            if p == "done":
+                continue
+            if p == "waiting" and t not in st["notified"]:
+                continue
+            if p == "stop_join" and st["sth"][t][0] not in st["wdone"]:
+                continue
+            if p in ("start", "dbegin") and pc["c"] == "begin":
+                continue
+            enabled.append(t)
+        jst = as_map(st["jst"])
+        ranby = as_map(st["ranby"])
+        return {
+            "pend": {t: CPEND[p] for t, p in pc.items()},
+            "enabled": sorted(enabled),
+            "wdone": sorted(st["wdone"]),
+            "exit": st["exit"],
+            "qlen": len(st["q"]),
+            # a dequeued job whose body has not started yet is not observable as running
+            "jobs": {j: {"st": "pending" if (s == "running" and ranby[j] == "none") else JST[s], "by": ranby[j],
+                         "fut": fut(jst, int(j))} for j, s in jst.items()},
+        }
+    return proj
 
 
 def tla_seq(xs):
@@ -65,14 +106,47 @@ SCRIPTS_MORE = [
     (["wst", "wst", "stop"], 2), (["asy", "asy", "stop", "asy"], 2), (["co", "wst", "stop", "fn"], 3),
     (["det", "stop"], 3), (["stop", "co", "fn", "det", "asy"], 1), (["co", "fn", "asy", "stop"], 3),
 ]
+# jobs whose body submits to the same pool: pool.run(async coroutine doing co_await pool / co_await pool.run(fn) /
+# co_await thread_pool::current()), coroutines hopping twice, functions submitting functions -- on a pool with no free
+# worker (1 worker; N such jobs on N workers): the worker must come back for the nested submission
+SCRIPTS_NEST = [
+    (["asn", "stop"], 1), (["asn", "asn", "stop"], 2), (["con", "asr", "stop"], 1), (["acu", "as2", "stop"], 1),
+    (["dtn", "fnn", "stop"], 1),
+]
+SCRIPTS_NEST_MORE = [
+    (["asr", "asr", "stop"], 2), (["as2", "asn", "stop"], 2), (["asn", "wst", "co"], 1), (["asn", "stop", "con", "fnn"], 1),
+    (["con", "con", "stop"], 3), (["acu", "wst", "stop"], 2), (["fnn", "dtn", "asr", "stop"], 2), (["asn", "asn", "asn", "stop"], 2),
+    (["as2", "stop"], 2), (["acu", "acu", "stop"], 2),
+]
+# two external stop() calls overlapping at lock grain (a second client thread "d"; "d:stop"), while workers are idle /
+# busy / stopping the pool themselves; run(fn) / run(async) whose body throws: the exception is the future's outcome
+# and the worker takes the next job
+SCRIPTS_TWO = [(["co", "stop", "d:stop"], 1), (["fnx", "asx", "fn", "stop"], 1)]
+SCRIPTS_TWO_MORE = [(["det", "stop", "d:stop"], 2), (["wst", "fn", "stop", "d:stop"], 2), (["co", "fn", "det", "d:stop"], 3), (["asn", "stop", "d:stop"], 1),
+                    (["stop", "fnx", "asx"], 1), (["asx", "fnx", "wst"], 2), (["fn", "stop", "stop", "d:stop"], 2)]
 ACTIONS = ["CBegin", "CEnqueue", "CAfterEnqueue", "StopCS", "StopAfter", "WStart", "WLock"]
 
 
-def run_script(ctx, rp, script, nw, tag, max_paths):
-    defs = {"Script": tla_seq(script), "WOrder": tla_seq(["w%d" % (i + 1) for i in range(nw)])}
-    hdr = {"script": script, "workers": nw}
-    return graph_replay(ctx, "ThreadPool", "ThreadPool", "ThreadPool_base.cfg", tag, rp, proj,
-                        header_fn=lambda k, st0: dict(hdr, form=k % 2), defs=defs, must_take=ACTIONS, max_paths=max_paths,
+def split_script(script):
+    """the element "d:stop" stands for the second client thread "d" calling pool.stop() (at any time after the pool's
+    construction, overlapping whatever the first client's script does)"""
+    second = "d:stop" in script
+    return [x for x in script if x != "d:stop"], second
+
+
+def model_defs(script, nw, second=False):
+    return {"Script": tla_seq(script), "WOrder": tla_seq(["w%d" % (i + 1) for i in range(nw)]),
+            "SecondStopper": "TRUE" if second else "FALSE"}
+
+
+def run_script(ctx, rp, script, nw, tag, max_paths, more_actions=()):
+    script, second = split_script(script)
+    defs = model_defs(script, nw, second)
+    hdr = {"script": script, "workers": nw, "second": second}
+    if second:
+        more_actions = list(more_actions) + ["DBegin"]
+    return graph_replay(ctx, "ThreadPool", "ThreadPool", "ThreadPool_base.cfg", tag, rp, make_proj(script),
+                        header_fn=lambda k, st0: dict(hdr, form=k % 2), defs=defs, must_take=ACTIONS + list(more_actions), max_paths=max_paths,
                         tlc_kw={"workers": 4})
 
 
@@ -88,13 +162,32 @@ def run(ctx):
         run_script(ctx, rp, script, nw, "s%d" % k, 400 if ctx.quick else 5000)
         if len(ctx.violations) >= 3:
             break
+    nest = SCRIPTS_NEST + ([] if ctx.quick else SCRIPTS_NEST_MORE)
+    for k, (script, nw) in enumerate(nest):
+        if len(ctx.violations) >= 3:
+            break
+        run_script(ctx, rp, script, nw, "n%d" % k, 400 if ctx.quick else 5000, more_actions=["WRun", "NEnqueue", "NAfterEnqueue"])
+    scripts = scripts + nest
+    if not ctx.quick and len(ctx.violations) < 3:
+        # three such jobs on three workers: the state graph (10^6 states) is checked by TLC only
+        big = ["asn", "asn", "asn", "stop"]
+        res = ctx.tlc("ThreadPool", "ThreadPool", os.path.join(vlib.VERIF, "spec/ThreadPool/ThreadPool_base.cfg"), "n3x3",
+                      defs=model_defs(big, 3), workers=4)
+        if res.violation:
+            ctx.tlc_violation(res, "ThreadPool:%s x3" % "+".join(big))
+    two = SCRIPTS_TWO + ([] if ctx.quick else SCRIPTS_TWO_MORE)
+    for k, (script, nw) in enumerate(two):
+        if len(ctx.violations) >= 3:
+            break
+        run_script(ctx, rp, script, nw, "t%d" % k, 400 if ctx.quick else 5000, more_actions=["StopJoin"])
+    scripts = scripts + two
     # resume(suspend_point): the closure holds a bare coroutine handle and has no cancel path.  The
     # specification mirrors that ("dropped"); the replay (cfg without RunOrCancelOnce) confirms that the real
     # code behaves as modelled, and TLC then reports the property violation on the model: a known finding.
     for k, (script, nw) in enumerate([(["res", "stop"], 1), (["det", "stop", "res"], 1)] + SCRIPTS_AW + ([] if ctx.quick else SCRIPTS_AW_MORE)):
-        defs = {"Script": tla_seq(script), "WOrder": tla_seq(["w%d" % (i + 1) for i in range(nw)])}
-        hdr = {"script": script, "workers": nw}
-        graph_replay(ctx, "ThreadPool", "ThreadPool", "ThreadPool_nodrop.cfg", "r%d" % k, rp, proj,
+        defs = model_defs(script, nw)
+        hdr = {"script": script, "workers": nw, "second": False}
+        graph_replay(ctx, "ThreadPool", "ThreadPool", "ThreadPool_nodrop.cfg", "r%d" % k, rp, make_proj(script),
                      header_fn=lambda i, st0, hdr=hdr: hdr, defs=defs, max_paths=400 if ctx.quick else 5000, tlc_kw={"workers": 4},
                      must_take=["CAwReady", "CAwSubscribe"] if "aw" in script else None)
         res = ctx.tlc("ThreadPool", "ThreadPool", os.path.join(vlib.VERIF, "spec/ThreadPool/ThreadPool_base.cfg"),
@@ -103,5 +196,7 @@ def run(ctx):
             ctx.tlc_violation(res, "ThreadPool:resume(%s)" % "+".join(script),
                               key="pool_resume_bare_handle_dropped" if res.violated_name == "RunOrCancelOnce" else None)
     ctx.extra["scripts"] = ["%s x%d" % ("+".join(s), n) for s, n in scripts]
+    ctx.assume("a function job that submits to its own pool does not wait for that submission (waiting there is the user's dead-lock); "
+               "a coroutine job may suspend on its own nested submission")
     ctx.assume("lock grain: atomic operations inside the pool's critical sections and inside promise resolution are not scheduling points")
     ctx.assume("condition-variable notify_one wakes the longest waiting worker (FIFO); no spurious wake-ups are generated")
